@@ -112,6 +112,11 @@ def edges_ok(out: str) -> str | None:
     return None
 
 
+def build_list(items):
+    memo: dict = {}
+    return TagList(*[build(d, True, memo) for d in items])
+
+
 def run(ctx: Ctx) -> None:
     rng = ctx.rng
     ctx.rule = ("unrestricted random trees over {block, inline, void, script/style tags, text, HTML, repr-object, "
@@ -158,6 +163,9 @@ def run(ctx: Ctx) -> None:
         want_runs[ci] = acc
     index_of = {id(c): ci for ci, c in enumerate(cases)}
 
+    def default_runs(c):
+        return want_runs[index_of[id(c)]]
+
     def nontriv(c):
         return any(len([x for x in items if x[0] != "M"]) >= 2 for _, items in c[3]) and not inline_only(c[0])
 
@@ -167,12 +175,21 @@ def run(ctx: Ctx) -> None:
         for s in want_runs[index_of[id(c)]]:
             if s not in out[1]:
                 return f"inline run {s!r} does not appear contiguously in the output"
+        # the same holds for every way of obtaining the markup (str, repr, _repr_html_, render, tagify)
+        x = build(c[0], share=True)
+        for name, f in trees.render_routes(x):
+            r = safe_call(f)
+            if r[0] != "ok":
+                return f"{name} raised on a tree that get_html_string renders"
+            for s in default_runs(c):
+                if s not in r[1]:
+                    return f"inline run {s!r} does not appear contiguously in the output of {name}"
         return None
 
     differential(
         ctx, "Tag.get_html_string (unrestricted trees)", cases,
         to_sx=lambda c: [2, to_sx(c[0]), c[1], S(c[2])],
-        impl=lambda c: safe_call(lambda: build(c[0]).get_html_string(c[1], c[2])),
+        impl=lambda c: safe_call(lambda: build(c[0], share=True).get_html_string(c[1], c[2])),
         decode=lambda m: res_decode(m, unS), oracle=oracle, nontrivial=nontriv, kind=lambda c: "tag")
 
     # top-level lists (add_ws True / False)
@@ -184,7 +201,8 @@ def run(ctx: Ctx) -> None:
     differential(
         ctx, "TagList.get_html_string (unrestricted items)", lcases,
         to_sx=lambda c: [3, [to_sx(d) for d in c[0]], c[1], S(c[2]), 1 if c[3] else 0, 1],
-        impl=lambda c: safe_call(lambda: TagList(*[build(d) for d in c[0]]).get_html_string(c[1], c[2], add_ws=c[3])),
+        impl=lambda c: safe_call(lambda: build_list(c[0]).get_html_string(c[1], c[2], add_ws=c[3])),
+        oracle=lambda c, out: trees.routes_disagree(build_list(c[0])) if c[3] else None,
         decode=lambda m: res_decode(m, unS), nontrivial=lambda c: len(c[0]) >= 2, kind=lambda c: "list")
 
     # whitespace only at the edges of whitespace-enabled tags (implementation only)
